@@ -11,6 +11,7 @@ RULE = ('one evaluation = one simulated driver life with 1-3 users on an ASCII o
         'commands, call_outs and heart beats, while every send() result is scripted (full, partial k, EWOULDBLOCK, EINTR, EPIPE, '
         'windows closed for many cycles). non-trivial = at least one partial/would-block/EINTR/EPIPE result or one message cut by a '
         'full ring; distinct = distinct abstract traces (sequence of message lengths classes and send-result kinds).')
+RULE += (" Later additions: ENOBUFS among the scripted send results; scenario class vmsg: the driver's configured failure message (add_vmessage) placed so that its CR LF starts in a chosen cell of the ring, the last cells among them.")
 COMPONENTS = {'real': ['src/comm.c add_message/add_vmessage/flush_message/process_io', 'src/backend.c', 'lib/efuns tell_object/write/printf/receive',
                        'lib/async/async_runtime_epoll.c'],
               'stub': ['kernel send()/epoll (simulated: scripted results, write readiness withheld while the window is closed)', 'timer thread (plan ticks)']}
